@@ -176,6 +176,9 @@ pub struct Prop {
     pub assumptions: &'static [&'static str],
     /// hand-written regression cases (independent of the tape layout), run in the replay tier
     pub fixed: Option<fn(&mut Ctx) -> CheckResult>,
+    /// large structured cases (10^5..10^6 elements), run in a child process on its main thread so
+    /// that a stack overflow or abort of the library shows up as a dead child, not a dead run
+    pub scale: Option<fn(&mut Ctx) -> CheckResult>,
 }
 
 // ------------------------------------------------------------------------------------------
